@@ -11,6 +11,8 @@ import (
 	"time"
 )
 
+var logSeq int
+
 type Result int
 
 const (
@@ -62,6 +64,14 @@ func (s *Solver) start() error {
 		return err
 	}
 	s.cmd, s.in, s.out = cmd, in, bufio.NewReader(out)
+	if dir := os.Getenv("GOSYM_SMTLOG"); dir != "" {
+		// one SMT-LIB2 script per solver process (a restart begins a new one), with the verdict after every check-sat:
+		// input of tools/solver_diff.py, which replays the scripts through other solvers
+		logSeq++
+		if f, err := os.Create(fmt.Sprintf("%s/q-%d-%d.smt2", dir, os.Getpid(), logSeq)); err == nil {
+			s.Log = f
+		}
+	}
 	s.defined = []map[int]bool{{}}
 	s.stack = nil
 	s.pendingSat = false
@@ -186,6 +196,9 @@ func (s *Solver) Check(pc []*Term, extra *Term) Result {
 	s.send("(check-sat)")
 	s.wasRestarted = false
 	r := s.readResult()
+	if s.Log != nil {
+		fmt.Fprintln(s.Log, "; VERDICT", r)
+	}
 	s.Queries[r]++
 	if r != Sat && !s.wasRestarted {
 		s.pop()
